@@ -343,6 +343,15 @@ def r_path(A, ctx, scope, rule="R-PATH"):
                 src = ast.unparse(v)
                 if isinstance(v, ast.Call) and ast.unparse(v.func) in ("np.zeros", "np.zeros_like"):
                     continue
+                # a copy is required when the source is an array that the loop itself
+                # stores results into (the result matrix); a user-supplied start point
+                # may be updated in place by design of solve()
+                stored = {t.value.id for s_ in ast.walk(lp) if isinstance(s_, ast.Assign)
+                          for t in (s_.targets[0].elts if isinstance(s_.targets[0], ast.Tuple)
+                                    else [s_.targets[0]])
+                          if isinstance(t, ast.Subscript) and isinstance(t.value, ast.Name)}
+                if not (names_in(v) & stored):
+                    continue
                 n += 1
                 is_copy = ".copy()" in src or (isinstance(v, ast.IfExp) and ".copy()" in src)
                 ctx.ob(rule, f"{f.fq}::start-copy::{norm_src(a)[:80]}", is_copy,
